@@ -96,6 +96,11 @@ class FunTr:
         if isinstance(e, ast.Call) and isinstance(e.func, ast.Name) \
                 and e.func.id == 'int' and len(e.args) == 1 and not e.keywords:
             return self.zexpr(e.args[0], env)
+        if isinstance(e, ast.Call) and isinstance(e.func, ast.Name) \
+                and e.func.id in ('min', 'max') and len(e.args) == 2 and not e.keywords:
+            return f"(Z.{e.func.id} {self.zexpr(e.args[0], env)} {self.zexpr(e.args[1], env)})"
+        if isinstance(e, ast.IfExp):
+            return f"(if {self.bexpr(e.test, env)} then {self.zexpr(e.body, env)} else {self.zexpr(e.orelse, env)})"
         # self.shape[0]
         if (isinstance(e, ast.Subscript) and isinstance(e.value, ast.Attribute)
                 and isinstance(e.value.value, ast.Name)
@@ -111,9 +116,14 @@ class FunTr:
             return '(' + f' {op} '.join(self.bexpr(v, env) for v in e.values) + ')'
         if isinstance(e, ast.UnaryOp) and isinstance(e.op, ast.Not):
             return f"(negb {self.bexpr(e.operand, env)})"
+        if isinstance(e, ast.Compare) and len(e.ops) > 1:
+            # a < b <= c  ==  (a < b) and (b <= c)
+            parts, left = [], e.left
+            for op, right in zip(e.ops, e.comparators):
+                parts.append(self.bexpr(ast.Compare(left=left, ops=[op], comparators=[right]), env))
+                left = right
+            return '(' + ' && '.join(parts) + ')'
         if isinstance(e, ast.Compare):
-            if len(e.ops) != 1:
-                fail(e, "chained comparison")
             a, b = self.zexpr(e.left, env), self.zexpr(e.comparators[0], env)
             op = e.ops[0]
             tbl = {ast.Lt: '<?', ast.LtE: '<=?', ast.Gt: '>?', ast.GtE: '>=?',
@@ -185,8 +195,24 @@ class FunTr:
             t = s.targets[0]
             if isinstance(t, ast.Name):
                 if env.get(t.id) == 'optZ':
-                    fail(s, "assignment to an optional parameter outside "
-                            "`if x is None`")
+                    # x = e if x is None else x   /   x = x if x is not None else e
+                    v = s.value
+                    dflt = None
+                    if isinstance(v, ast.IfExp) and isinstance(v.test, ast.Compare) and len(v.test.ops) == 1 \
+                            and isinstance(v.test.left, ast.Name) and v.test.left.id == t.id \
+                            and isinstance(v.test.comparators[0], ast.Constant) and v.test.comparators[0].value is None:
+                        if isinstance(v.test.ops[0], ast.Is) and isinstance(v.orelse, ast.Name) and v.orelse.id == t.id:
+                            dflt = v.body
+                        elif isinstance(v.test.ops[0], ast.IsNot) and isinstance(v.body, ast.Name) and v.body.id == t.id:
+                            dflt = v.orelse
+                    if dflt is None:
+                        fail(s, "assignment to an optional parameter outside "
+                                "`if x is None`")
+                    envn = dict(env); envn[t.id] = 'absent'
+                    val = self.zexpr(dflt, envn)
+                    envz = dict(env); envz[t.id] = 'Z'
+                    return pad + f"let {t.id} := match {t.id} with None => {val} " \
+                        f"| Some {t.id} => {t.id} end in\n" + self.stmts(rest, envz, ind)
                 e2 = dict(env); e2[t.id] = 'Z'
                 return pad + f"let {t.id} := {self.zexpr(s.value, env)} in\n" \
                     + self.stmts(rest, e2, ind)
